@@ -145,6 +145,11 @@ func TestC09EndToEnd(t *testing.T) { runE2EProperty(t, "C09", "TestC09EndToEnd")
 // replica kept on disk about the write it did not apply.
 func TestC02Restart(t *testing.T) { runE2EProperty(t, "C02", "TestC02Restart") }
 
+// TestC05Restart: the same for C05's last clauses - the failure of a minority loses
+// no acknowledged data, and a replica that was detached for failing a write does
+// not come back as an up-to-date copy without a rebuild.
+func TestC05Restart(t *testing.T) { runE2EProperty(t, "C05", "TestC05Restart") }
+
 func runE2EProperty(t *testing.T, prop, test string) {
 	rec := NewRecorder(prop, test)
 	defer rec.Flush(t)
@@ -162,6 +167,12 @@ func runE2EProperty(t *testing.T, prop, test string) {
 		}
 		rec.Case(ec, labels["restart:with-acked-writes"] > 0 && labels["write:with-failures"] > 0, ls...)
 		if f != nil {
+			if prop == "C05" && strings.Contains(f.Sig, "acked-with-fewer-than-a-majority-of-RF") {
+				// more than a minority of the configured replicas had failed or were behind
+				// when that write was acknowledged: outside C05's antecedent (the C02/C09 finding)
+				rec.Label("crossfinding:"+f.Sig, 1)
+				return
+			}
 			if prop != "C09" && !strings.Contains(f.Sig, "acknowledged-write-lost") {
 				rec.Label("crossfinding:"+f.Sig, 1)
 				return
@@ -194,7 +205,7 @@ func runE2EProperty(t *testing.T, prop, test string) {
 	rapid.Check(t, func(rt *rapid.T) {
 		h := GenSProgram(rt, c09HistCfg)
 		var laggards []int
-		if prop == "C02" && h.Nodes >= 3 && rapid.IntRange(0, 2).Draw(rt, "lastwrite") > 0 {
+		if prop != "C09" && h.Nodes >= 3 && rapid.IntRange(0, 2).Draw(rt, "lastwrite") > 0 {
 			// the last thing the volume sees is a write during which a minority of
 			// the replicas cannot write to their disk
 			total := int64(h.Blocks) * 8
